@@ -28,6 +28,7 @@ func checkC12(c *Ctx) {
 	checkC12OwnersAll(c)
 	checkC12AppendAdds(c)
 	checkC12KeyPartners(c)
+	checkC12ValuesAll(c)
 	r := c.Rule("C12.records-survive", "association mode deletes records of the related model only under Unscope; otherwise detaches with nil foreign keys", 7)
 	dbT := p.Named(pkgGorm, "DB")
 	assocT := p.Named(pkgGorm, "Association")
